@@ -3408,13 +3408,30 @@ def kir3(m, run, what=('insert', 'remove')):
         if any(x is None for x in sa_ + sb_):
             raise Violation('KR3', 'the removability test compares %r and %r' % (a, b), node)
         return 0.0 if all(x.same(y) for x, y in zip(sa_, sb_)) else 1.0
+    # every case is run twice: on points (4 coordinates) and on rows of two points (2 coordinates each) - what the surface / volume
+    # operations hand to the helpers; a row is updated point by point, so rows that share a point list change together
+    def shaped(rows, nested):
+        return [[[Sym(x) for x in row[:2]], [Sym(x) for x in row[2:]]] for row in rows] if nested else [[Sym(x) for x in row] for row in rows]
+
+    def flat(out, nested):
+        if not nested or not isinstance(out, list):
+            return out
+        return [(list(r[0]) + list(r[1])) if isinstance(r, (list, tuple)) and len(r) == 2 and all(isinstance(q, (list, tuple)) for q in r) else r for r in out]
+    def snap(x):
+        return [snap(y) for y in x] if isinstance(x, list) else x
+
+    def untouched(inp, keep):
+        """the rows handed in are what they were (same structure, the very same values)"""
+        if isinstance(keep, list):
+            return isinstance(inp, list) and len(inp) == len(keep) and all(untouched(a_, b_) for a_, b_ in zip(inp, keep))
+        return inp is keep
     fins, frem = m.func('helpers.knot_insertion'), m.func('helpers.knot_removal')
     fkv = m.func('helpers.knot_insertion_kv')
     bad_i, bad_r, ni, nr = [], [], 0, 0
     nets = [(2, [F(0)] * 3 + [F(1, 3), F(2, 3)] + [F(1)] * 3), (3, [F(0)] * 4 + [F(1, 4), F(1, 2), F(1, 2), F(3, 4)] + [F(1)] * 4), (2, [F(0)] * 3 + [F(2, 5)] + [F(2)] * 3)]
     for p, kv in nets:
         n = len(kv) - p - 1
-        P = [[Poly.atom('P%d_%d' % (i, c)) for c in range(2)] for i in range(n)]
+        P = [[Poly.atom('P%d_%d' % (i, c)) for c in range(4)] for i in range(n)]
         interior = sorted(set(kv[p + 1:-(p + 1)]))
         spans = sorted(set(kv[p:-p]))
         mids = [(a + b) / 2 for a, b in zip(spans, spans[1:])]
@@ -3427,13 +3444,19 @@ def kir3(m, run, what=('insert', 'remove')):
                 for _ in range(r):
                     want, wkv = boehm(want, wkv, p, u)
                     chain.append(want)
-                if 'insert' in what:
+                for nested in ((False, True) if 'insert' in what else ()):
                     ni += 1
                     sk = SK(m, {})          # nothing abstracted: the alpha helpers are interpreted on the rational knots
                     sk.exact = True
                     try:
-                        out = sk.call(fins, [p, list(kv), [[Sym(x) for x in row] for row in P], u], {'num': r, 's': s, 'span': k})
-                        why = same_net(out, want)
+                        inp = shaped(P, nested)
+                        keep = snap(inp)
+                        out = sk.call(fins, [p, list(kv), inp, u], {'num': r, 's': s, 'span': k})
+                        why = same_net(flat(out, nested), want)
+                        if why is None and not untouched(inp, keep):
+                            why = 'the control points handed in are modified (they belong to the caller and are returned as the unaltered part of the result)'
+                        if why and nested:
+                            why = 'on rows of points: ' + why
                     except Violation as v:
                         why = '%s %s' % (v.msg, v.where())
                     except Unsupported as ex:
@@ -3441,14 +3464,20 @@ def kir3(m, run, what=('insert', 'remove')):
                     if why:
                         bad_i.append(((p, [str(x) for x in kv], str(u), r), why))
                 if 'remove' in what:
-                    for t in range(1, r + 1):
+                    for t, nested in [(t_, n_) for t_ in range(1, r + 1) for n_ in (False, True)]:
                         nr += 1
                         ab = {('linalg', 'point_distance'): Py(eqdist, 'point_distance')}
                         sk = SK(m, ab)
                         sk.exact = True
                         try:
-                            out = sk.call(frem, [p, list(wkv), [[Sym(x) for x in row] for row in want], u], {'num': t})
-                            why = same_net(out, chain[r - t])
+                            inp = shaped(want, nested)
+                            keep = snap(inp)
+                            out = sk.call(frem, [p, list(wkv), inp, u], {'num': t})
+                            why = same_net(flat(out, nested), chain[r - t])
+                            if why is None and not untouched(inp, keep):
+                                why = 'the control points handed in are modified'
+                            if why and nested:
+                                why = 'on rows of points: ' + why
                         except Violation as v:
                             why = '%s %s' % (v.msg, v.where())
                         except Unsupported as ex:
@@ -3460,13 +3489,17 @@ def kir3(m, run, what=('insert', 'remove')):
         bad_f, nf = [], 0
         for p, kv in nets:
             n = len(kv) - p - 1
-            P = [[Poly.atom('P%d_%d' % (i, c)) for c in range(2)] for i in range(n)]
-            for density in (1, 2):
+            P = [[Poly.atom('P%d_%d' % (i, c)) for c in range(4)] for i in range(n)]
+            for density, nested in ((1, False), (2, False), (1, True), (2, True)):
                 nf += 1
                 sk = SK(m, {})
                 sk.exact = True
                 try:
-                    out = sk.call(fref, [p, list(kv), [[Sym(x) for x in row] for row in P]], {'density': density})
+                    # (A5.4 as ported updates rows of the slabs it is given in place - the operations hand it freshly built rows and the
+                    # result is right, so this is not a clause of the property and is not asked for here)
+                    out = sk.call(fref, [p, list(kv), shaped(P, nested)], {'density': density})
+                    if nested and isinstance(out, (tuple, list)) and len(out) == 2:
+                        out = (flat(out[0], True), out[1])
                     why = None
                     if not isinstance(out, (tuple, list)) or len(out) != 2:
                         why = 'does not return (control points, knot vector)'
